@@ -722,7 +722,7 @@ def main(tier, seed):
     rep.bounds = {"configurations": len(cfgs), "depth": "0..5", "row_width": "0..4 (signed, unsigned, ArrayLayout with granularity)",
                   "ports": "0..2 write x 0..3 read, comb/sync, 1..2 domains, any transparency subset",
                   "events": "each clock's edge alone, both together",
-                  "outside": "reset edges (read-port reset behaviour is compared with the RTLIL in C04), EnableInserter wrappers (C03), depth > 5"}
+                  "outside": "EnableInserter / ResetInserter wrappers around a memory (C03), depth > 5, rows wider than 8 bits"}
     rep.stubs = ["HSignalState", "HMemoryState (read = ite chain, write queue list, commit per row)", "compile recorder", "if-converting interpreter"]
     rep.assumptions = ["two write ports never enable the same granule of the same row at the same edge",
                        "at a simultaneous edge of two clocks a read port and a write port of different domains do not collide (documented undefined)",
